@@ -279,6 +279,35 @@ def run(rep):
         rep.check(not leaks, 'C17.4.module-info-dropped', f'module-info:{tn}', T.where(vb),
                   f'the value returned by Validator::validate flows into {leaks[:4]}: generation then uses the validator\'s analysis, so enabling validation can change the output',
                   ok_detail='the validator result only feeds the error branch and is dropped')
+    # the validator is the full one, configured from the caller's options: all validation flags (nothing subtracted), and the capability set
+    # of the very ValidationOptions found in options.validate - a weaker validator accepts modules the documented one rejects
+    n_cfg = 0
+    for n2, b2 in sorted(mir.bodies.items()):
+        for bb2, t2 in b2.calls():
+            if not cname(t2).endswith('valid::Validator::new') or len(t2['args']) < 2:
+                continue
+            n_cfg += 1
+            fl, cp = op_local(t2['args'][0]), op_local(t2['args'][1])
+            fcalls = [cname(c) for _, c in b2.backward_slice([fl])[1]] if fl is not None else None
+            ok_flags = fcalls is not None and len(fcalls) == 1 and fcalls[0].endswith('ValidationFlags>::all')
+            rep.check(ok_flags, 'C17.3.validator-config', f'validation-flags:{n2}', b2.where(bb2),
+                      f'the validator is not created with ValidationFlags::all() (flags computed by {fcalls}): with some checks switched off it accepts modules that the validator rejects',
+                      ok_detail='ValidationFlags::all()')
+            ok_caps = False
+            ccalls = []
+            if cp is not None:
+                _, cc, cs = b2.backward_slice([cp])
+                ccalls = [cname(c) for _, c in cc]
+                places = [p_ for _, s_ in cs for p_ in b2.rvalue_places(s_['rv'])]
+                reads_caps = any(place_reads_field(p_, 'ValidationOptions', 'capabilities') for p_ in places)
+                from_validate = any(place_reads_field(p_, 'WriteOptions', 'validate') for p_ in places) or \
+                    any(local_from_field(mir, b2, p_['l'], 'WriteOptions', 'validate') for p_ in places if place_reads_field(p_, 'ValidationOptions', 'capabilities'))
+                plumbing_only = all(method(c) in ('as_ref', 'copied', 'cloned', 'clone', 'unwrap', 'as_deref', 'branch', 'deref') or c.startswith(PLUMBING) for c in ccalls)
+                ok_caps = reads_caps and from_validate and plumbing_only
+            rep.check(ok_caps, 'C17.3.validator-config', f'validation-capabilities:{n2}', b2.where(bb2),
+                      f'the validator\'s capability set is not the `capabilities` of the caller\'s options.validate (computed through {ccalls}): modules that need a capability the caller '
+                      f'excluded are accepted (or the reverse)', ok_detail='capabilities of options.validate')
+    rep.floor('Validator::new call sites', n_cfg, 1)
     # readers of the option: only chain functions (and derived impls); the value feeds only the gate / the validator's capabilities
     readers = []
     accessors = set()
